@@ -829,7 +829,7 @@ fn run(ctx: &mut Ctx) {
         }
     }
     // hand-written presentations of the contiguous document, then interleaved
-    let n = ctx.scaled(t.pick(1_200, 120_000)) / ctx.nshards as u64 + 1;
+    let n = ctx.scaled(t.pick(1_200, 50_000)) / ctx.nshards as u64 + 1;
     'outer4: for i in 0..n {
         for (ops, gen) in &shapes {
             let vseed = r.next();
